@@ -81,9 +81,19 @@ def run_shard(ctx):
                     text = '%d %s%s' % (n, 'to ' if form == 'to-zone' else '', z)
                     z = z.upper()
                 elif form == 'roundtrip':
-                    text = 'zq = %d to date\nzq %s' % (n, rng.choice(['as unix', 'to unix', 'as unixtime', 'unix', 'to unixtimestamp']))
-                    meta.append((text, 'ts-datetime-ts', ('unix', n)))
+                    back = rng.choice(['as unix', 'to unix', 'as unixtime', 'unix', 'to unixtimestamp'])
+                    if rng.random() < 0.4:
+                        # both conversions on one line
+                        text = '%d to %s %s' % (n, rng.choice(['date', 'date', gen_zone(rng, zones)[0]]), back)
+                        meta.append((text, 'ts-datetime-ts:one-line', ('unix', n)))
+                    else:
+                        text = 'zq = %d to date\nzq %s' % (n, back)
+                        meta.append((text, 'ts-datetime-ts', ('unix', n)))
                     continue
+                elif n >= 0 and rng.random() < 0.1:
+                    # the timestamp written as a based literal (it is a number like any other)
+                    text = '%s to date' % rng.choice(['0x%X' % n, '0o%o' % n, '0b' + bin(n)[2:]])
+                    form = 'based-literal-to-date'
                 else:
                     text = '%d %s' % (n, form)
                 meta.append((text, 'from-unix:' + form.replace(' ', '-'), ('datetime', n, z, off)))
@@ -97,8 +107,18 @@ def run_shard(ctx):
                     text = 'zq = %s\nzq %s%s' % (dt, conn, word)
                     cls = 'date-to-unix:variable'
                 elif rng.random() < 0.3:
-                    text = 'zq = %s %s%s\nzq to date' % (dt, conn, word)
-                    meta.append((text, 'date-unix-datetime', ('datetime', n, dz, doff)))
+                    if rng.random() < 0.5 and conn:
+                        # both conversions on one line, to the default zone or to a requested one
+                        if rng.random() < 0.5:
+                            z2, off2 = gen_zone(rng, zones)
+                            text = '%s %s%s to %s' % (dt, conn, word, z2)
+                            meta.append((text, 'date-unix-datetime:one-line', ('datetime', n, z2.upper(), off2)))
+                        else:
+                            text = '%s %s%s to date' % (dt, conn, word)
+                            meta.append((text, 'date-unix-datetime:one-line', ('datetime', n, dz, doff)))
+                    else:
+                        text = 'zq = %s %s%s\nzq to date' % (dt, conn, word)
+                        meta.append((text, 'date-unix-datetime', ('datetime', n, dz, doff)))
                     continue
                 else:
                     text = '%s %s%s' % (dt, conn, word)
